@@ -8,10 +8,21 @@ MISSING = object()
 
 
 class Row:
-    def __init__(self, call):
+    def __init__(self, call, scope=None):
         self.call = call
         self.flags = [const_str(a) for a in call.args]
-        kw = {k.arg: k.value for k in call.keywords if k.arg}
+        kw = {}
+        # add_argument(..., **settings) with `settings` a dictionary literal bound once in the same function
+        for k in call.keywords:
+            if k.arg is None and isinstance(k.value, ast.Name) and scope is not None:
+                lits = [n.value for n in own_nodes(scope) if isinstance(n, ast.Assign) and len(n.targets) == 1 and isinstance(n.targets[0], ast.Name)
+                        and n.targets[0].id == k.value.id]
+                if len(lits) == 1 and isinstance(lits[0], ast.Dict):
+                    for dk, dv in zip(lits[0].keys, lits[0].values):
+                        if dk is not None and const_str(dk):
+                            kw[const_str(dk)] = dv
+                    self.shared_settings = k.value.id
+        kw.update({k.arg: k.value for k in call.keywords if k.arg})
         self.kw = kw
         self.action = const_str(kw["action"]) if "action" in kw else "store"
         self.nargs = _const(kw.get("nargs"), None)
@@ -98,9 +109,9 @@ class Parsers:
                 var = key(n.func.value.id)
                 if n.func.attr == "add_argument":
                     if var in self.sub:
-                        self.sub[var]["rows"].append(Row(n))
+                        self.sub[var]["rows"].append(Row(n, fn.node))
                     else:
-                        self.main_rows.append(Row(n))
+                        self.main_rows.append(Row(n, fn.node))
                 elif n.func.attr == "set_defaults" and var in self.sub:
                     for kw in n.keywords:
                         if kw.arg == "func":
